@@ -63,7 +63,10 @@ func TestVerifC17(t *testing.T) {
 	}
 	settle := func(rows []qrow, arows []aggRow) bool {
 		want := map[[3]string]int{{"stream", "qs", "st_none"}: len(rows), {"stream", "qs", "st_inv"}: len(rows), {"measure", "qm", "m_inv"}: len(rows), {"measure", "ga", "ma"}: len(arows)}
-		for i := 0; i < 240; i++ {
+		// with replicas a query is answered by one copy of each shard, chosen per query: the rows have settled when
+		// a run of consecutive polls (more than there are copies to rotate through) all see every row
+		streak := 0
+		for i := 0; i < 480; i++ {
 			ok := true
 			for k, n := range want {
 				if got := count(k[0], k[1], k[2]); got != n {
@@ -74,9 +77,15 @@ func TestVerifC17(t *testing.T) {
 				}
 			}
 			if ok {
-				s.Count("c17.settle_polls", int64(i+1))
-				return true
+				streak++
+				if streak >= 8 {
+					s.Count("c17.settle_polls", int64(i+1))
+					return true
+				}
+				time.Sleep(100 * time.Millisecond)
+				continue
 			}
+			streak = 0
 			time.Sleep(500 * time.Millisecond)
 		}
 		return false
